@@ -8,7 +8,7 @@ import (
 )
 
 func defC04() *ph.Def {
-	return &ph.Def{Help: "help", Root: ph.CmdDef{Name: "prog",
+	return &ph.Def{Help: "help", Root: ph.CmdDef{Name: "prog", ReqArgs: 1, // the program's function fetches its first argument with GetRequiredArg
 		Opts: []ph.OptDef{
 			{Name: "a", Kind: ph.Bool},
 			{Name: "s", Kind: ph.Str},
@@ -18,13 +18,13 @@ func defC04() *ph.Def {
 			{Name: "li", Kind: ph.IntS, Min: 2, Max: 3},
 			{Name: "m", Kind: ph.Map, Min: 1, Max: 2},
 		},
-		Cmds: []*ph.CmdDef{{Name: "c", Opts: []ph.OptDef{{Name: "d", Kind: ph.Bool}}},
+		Cmds: []*ph.CmdDef{{Name: "c", ReqArgs: 1, Opts: []ph.OptDef{{Name: "d", Kind: ph.Bool}}},
 			{Name: "w", Unset: true, Unknown: 3, Cmds: []*ph.CmdDef{{Name: "c"}}}}, // a wrapper without options of its own, passing everything through
 	}}
 }
 
 var c04Pre = []string{"p", "--a", "--s", "--s=v", "--so", "--io", "--l", "v", "--m", "k=v", "c", "--zz", "--li", "5", "--d", "--io=x", "w"}
-var c04Tail = []string{"--a", "--s", "c", "--", "--zz", "-a", "p", "--d", "--help", "help", ""}
+var c04Tail = []string{"--a", "--s", "c", "--", "--zz", "-a", "p", "--d", "--help", "help", "", "x\r"} // the last one: a token ending in a carriage return is still returned verbatim
 
 // judgeC04: argv = pre ++ ["--"] ++ tail, encoded in Extra["pre"] (length of pre).
 func judgeC04(pc *parserCase, verbose bool) []string {
@@ -133,6 +133,12 @@ func c04Judge(def *ph.Def, pre, tail []string, verbose bool) ([]string, c04Info)
 	if o1.Warnings != o2.Warnings {
 		out = append(out, fmt.Sprintf("terminator: warnings differ: %q vs %q (a token after `--` triggered unknown-option handling)", o1.Warnings, o2.Warnings))
 	}
+	// the documented helper for positional arguments hands the first remaining token to the function as it is
+	if len(o2.Calls) == 1 && len(o2.Calls[0].ReqArgs) == 1 && len(o2.Remaining) > 0 {
+		if c := o2.Calls[0]; c.ReqArgErrs[0] || c.ReqArgs[0] != o2.Remaining[0] {
+			out = append(out, fmt.Sprintf("terminator: the command function fetches its first argument with GetRequiredArg and gets %q (failed=%v), want the first remaining token %q", c.ReqArgs[0], c.ReqArgErrs[0], o2.Remaining[0]))
+		}
+	}
 	if len(o1.Calls) != len(o2.Calls) || (len(o1.Calls) == 1 && o1.Calls[0].Path != o2.Calls[0].Path) {
 		out = append(out, fmt.Sprintf("terminator: Dispatch runs %v without the tail and %v with it (a token after `--` selected a command)", callPaths(o1), callPaths(o2)))
 	}
@@ -151,8 +157,8 @@ func init() {
 	parserJudges["C04"] = judgeC04
 	register(&Check{
 		ID:        "C04",
-		QuickSecs: 300, ThoroSecs: 3000,
-		Rule: "input-space exploration, differential: argv = pre ++ [`--`] ++ tail for every pre of length <= Lp over 17 tokens (positional, flag, valued / optional-valued / greedy multi-valued / map options and their values, command, unknown option) and every tail of length <= Lt over 11 tokens " +
+		QuickSecs: 900, ThoroSecs: 3000,
+		Rule: "input-space exploration, differential: argv = pre ++ [`--`] ++ tail for every pre of length <= Lp over 17 tokens (positional, flag, valued / optional-valued / greedy multi-valued / map options and their values, command, unknown option) and every tail of length <= Lt over 12 tokens " +
 			"(known options, command name, further `--`, unknown and short options) in all 18 configurations; unless the reference model says the `--` is the still-missing mandatory value of the option before it (then the statement is applied to the next `--` of the tail), Parse(argv) must equal Parse(pre) in every option value, Called, warning and dispatch target and return remaining(pre) ++ tail; when Parse(pre) fails, Parse(argv) must fail with every option value and Called flag as after Parse(pre); " +
 			"distinct_nontrivial = distinct in-domain (configuration, pre, tail) cases",
 		Assume: []string{"pre longer than Lp / tail longer than Lt and other tokens are not covered"},
